@@ -348,6 +348,126 @@ example : (run genLayout { ctx := exCtx, alive := true, sent := [] }
     handleRead genLayout exCtx { exDgram with data := exReq.take 22 ++ [0xff] ++ exReq.drop 23 } = .escaped .unicodeDecodeError ∧
     handleRead genLayout exCtx { exDgram with data := exReq.take 149 } = .discardedBad := by decide +kernel
 
+/-! ## the kill request, and what can leave `_handle_read` -/
+
+/-- **killed exactly by a well-formed kill request**: junk that merely resembles one, info requests,
+responses — nothing else reaches `os._exit` -/
+theorem kill_iff {L : Layout} (hwf : WellFormed L = true) (c : Ctx) (d : Dgram) :
+    handleRead L c d = .kill ↔ IsKillRequest L d.data := by
+  have wf := wf_of_wellFormed hwf
+  constructor
+  · intro h
+    cases hu : unpack L (d.data.take L.recvMax) with
+    | error e =>
+      unfold handleRead at h
+      rw [hu] at h
+      cases e <;> simp at h
+    | ok p =>
+      have hu0 := hu
+      rw [take_eq_of_unpack wf (size_lt_recv wf) hu] at hu
+      rw [handleRead_ok hu0] at h
+      cases hk : p.kind with
+      | kill => exact isKillRequest_of_unpack wf hu hk
+      | infoResp => rw [hk] at h; simp at h
+      | infoReq =>
+        rw [hk] at h
+        simp only at h
+        rcases handleInfoRequest_cases L c d p with h' | ⟨h', _⟩ | ⟨h', _⟩ | ⟨out, h'⟩ <;> rw [h'] at h <;> cases h
+  · intro hk
+    unfold handleRead
+    have hlt : sizeOf L .kill < L.recvMax := size_lt_recv wf .kill
+    rw [take_of_small hlt hk.1, unpack_of wf .kill d.data hk.1 hk.2.1 hk.2.2]
+
+/-- a kill request is never answered, and after it the process is gone: nothing is sent any more -/
+theorem kill_not_answered {L : Layout} (hwf : WellFormed L = true) (s : RState) (d : Dgram) (rest : List Dgram)
+    (halive : s.alive = true) (hk : IsKillRequest L d.data) :
+    (run L s (d :: rest)).sent = s.sent ∧ (run L s (d :: rest)).alive = false := by
+  have hstep : step L s d = { s with alive := false } := by
+    unfold step
+    rw [halive, (kill_iff hwf s.ctx d).2 hk]
+    rfl
+  have hdead : ∀ (t : RState) (ds : List Dgram), t.alive = false → run L t ds = t := by
+    intro t ds ht
+    induction ds with
+    | nil => rfl
+    | cons x xs ih =>
+      unfold run at ih ⊢
+      rw [List.foldl_cons]
+      have : step L t x = t := by unfold step; rw [ht]; rfl
+      rw [this]; exact ih
+  unfold run
+  rw [List.foldl_cons, hstep]
+  have := hdead { s with alive := false } rest rfl
+  unfold run at this
+  rw [this]
+  exact ⟨rfl, rfl⟩
+
+/-- **the only exceptions that leave `_handle_read`** (and so rely on the event loop's containment):
+the enum's `ValueError` on an unknown type tag; `UnicodeDecodeError` on a request whose filter is not UTF-8;
+`create`'s `ValueError` when a name does not fit.  `QMI_RuntimeException` never escapes. -/
+theorem escape_classes {L : Layout} (hwf : WellFormed L = true) (c : Ctx) (d : Dgram) (e : PyExc)
+    (h : handleRead L c d = .escaped e) :
+    (e = .valueError ∧ unpack L (d.data.take L.recvMax) = .error .valueError) ∨
+    (IsInfoRequest L d.data ∧
+      ((e = .unicodeDecodeError ∧ (reqWgFilter L d.data = none ∨ reqCtxFilter L d.data = none)) ∨
+       (e = .valueError ∧ ¬ ((cstr (utf8Encode c.name)).length ≤ L.nameLen ∧ (cstr (utf8Encode c.workgroup)).length ≤ L.wgLen)))) := by
+  have wf := wf_of_wellFormed hwf
+  cases hu : unpack L (d.data.take L.recvMax) with
+  | error e' =>
+    unfold handleRead at h
+    rw [hu] at h
+    rcases unpack_error_cases L _ e' hu with rfl | rfl
+    · cases h
+    · simp only at h
+      cases h
+      exact Or.inl ⟨rfl, rfl⟩
+  | ok p =>
+    have hu0 := hu
+    rw [take_eq_of_unpack wf (size_lt_recv wf) hu] at hu
+    rw [handleRead_ok hu0] at h
+    cases hk : p.kind with
+    | kill => rw [hk] at h; cases h
+    | infoResp => rw [hk] at h; cases h
+    | infoReq =>
+      obtain ⟨hreq, hf⟩ := isInfoRequest_of_unpack wf hu hk
+      rw [hk] at h
+      simp only at h
+      right
+      refine ⟨hreq, ?_⟩
+      have hf4 : p.fld 4 = (reqFields L d.data).getD 4 [] := fld_eq_of_fields hf 4
+      have hf5 : p.fld 5 = (reqFields L d.data).getD 5 [] := fld_eq_of_fields hf 5
+      rcases handleInfoRequest_cases L c d p with h' | ⟨h', hd⟩ | ⟨h', hn⟩ | ⟨out, h'⟩
+      · rw [h'] at h; cases h
+      · rw [h'] at h; cases h
+        left
+        refine ⟨rfl, ?_⟩
+        unfold reqWgFilter reqCtxFilter
+        rw [← hf4, ← hf5]
+        exact hd
+      · rw [h'] at h; cases h
+        exact Or.inr ⟨rfl, hn⟩
+      · rw [h'] at h; cases h
+
+/-- for a context that can exist, only two things escape: the enum's `ValueError` (exactly the datagrams of
+`unpack_valueError_iff`) and the `UnicodeDecodeError` of a non-UTF-8 filter in an otherwise well-formed request -/
+theorem escape_classes_admitted {L : Layout} (hwf : WellFormed L = true) (c : Ctx) (d : Dgram) (e : PyExc)
+    (hadm : admitContext L c.name c.workgroup = true) (h : handleRead L c d = .escaped e) :
+    (e = .valueError ∧ unpack L (d.data.take L.recvMax) = .error .valueError) ∨
+    (e = .unicodeDecodeError ∧ IsInfoRequest L d.data ∧ (reqWgFilter L d.data = none ∨ reqCtxFilter L d.data = none)) := by
+  rcases escape_classes hwf c d e h with h1 | ⟨hreq, ⟨he, hd⟩ | ⟨_, hn⟩⟩
+  · exact Or.inl h1
+  · exact Or.inr ⟨he, hreq, hd⟩
+  · exact absurd (admit_fits_cstr (wf_of_wellFormed hwf) hadm) hn
+
+/-- non-vacuity: the kill request kills and is not answered; one byte more or less, another tag, another magic
+or the same header on a request-sized datagram do not; the request after a kill is not answered any more -/
+example : IsKillRequest genLayout exKill ∧ handleRead genLayout exCtx { exDgram with data := exKill } = .kill ∧
+    ¬ IsKillRequest genLayout (exKill ++ [0]) ∧ ¬ IsKillRequest genLayout (exKill.take 21) ∧
+    ¬ IsKillRequest genLayout (exKill.take 4 ++ [3, 2] ++ exKill.drop 6) ∧ ¬ IsKillRequest genLayout (0x50 :: exKill.drop 1) ∧
+    handleRead genLayout exCtx { exDgram with data := exKill ++ List.replicate 128 0 } = .discardedBad ∧
+    (run genLayout { ctx := exCtx, alive := true, sent := [] } [{ exDgram with data := exKill }, exDgram]).sent = [] := by
+  decide +kernel
+
 /-! ## the asking side -/
 
 /-- `ping_qmi_contexts` keeps exactly the datagrams that are well-formed responses to *its own* request id -/
